@@ -7,3 +7,4 @@ import Props.C07
 import Props.C06
 import Props.C08
 import Props.C09
+import Props.C03
